@@ -18,15 +18,7 @@ Definition node_wf (v : value) : bool :=
   | _ => true
   end.
 
-(* the defect: a dict key that is an instance of a subclass of str passes `isinstance(key, str)` and is
-   put into the encoded dict as it is *)
-Definition node_keys (v : value) : bool :=
-  match v with
-  | PDict l => forallb (fun kv => match fst kv with PStr true _ => false | _ => true end) l
-  | _ => true
-  end.
-
-Definition node_ok (v : value) : bool := node_wf v && node_keys v.
+Definition node_ok (v : value) : bool := node_wf v.
 
 Lemma forallb_map : forall {A B} (f : A -> B) (P : B -> bool) l,
   forallb P (map f l) = forallb (fun x => P (f x)) l.
@@ -71,7 +63,7 @@ Proof.
   induction fuel as [|n IH]; intros v Hv.
   - (* no stack left: containers with children become ['U', ...] *)
     destruct v; cbn [vforall] in Hv; apply andb_true_iff in Hv as [Hnode Hch];
-      unfold node_ok in Hnode; apply andb_true_iff in Hnode as [Hwf Hkeys]; cbn [node_wf node_keys] in *;
+      unfold node_ok in Hnode; pose proof Hnode as Hwf; cbn [node_wf] in Hwf;
       cbn [encode_f]; try reflexivity.
     + destruct (is_int_short z); [reflexivity|]. destruct (str_of_Z z); reflexivity.
     + destruct (o_utf8_decode orc b); reflexivity.
@@ -86,7 +78,7 @@ Proof.
       destruct uinput; [reflexivity|]. rewrite marshalable_tag. apply trim_args_ok. cbn. rewrite H1, H2, H3. reflexivity.
     + rewrite marshalable_tag. cbn. rewrite Hwf. reflexivity.
   - destruct v; cbn [vforall] in Hv; apply andb_true_iff in Hv as [Hnode Hch];
-      unfold node_ok in Hnode; apply andb_true_iff in Hnode as [Hwf Hkeys]; cbn [node_wf node_keys] in *;
+      unfold node_ok in Hnode; pose proof Hnode as Hwf; cbn [node_wf] in Hwf;
       cbn [encode_f]; try reflexivity.
     + destruct (is_int_short z); [reflexivity|]. destruct (str_of_Z z); reflexivity.
     + destruct (o_utf8_decode orc b); reflexivity.
@@ -99,9 +91,9 @@ Proof.
       destruct (forallb (fun kv => is_str (fst kv)) l) eqn:Hstr; [|reflexivity].
       destruct l as [|kv l]; [reflexivity|]. rewrite marshalable_tag. cbn [forallb]. rewrite andb_true_r.
       cbn [marshalableb]. rewrite forallb_map.
-      rewrite forallb_forall in *. intros [k x] Hin. specialize (Hch _ Hin). specialize (Hstr _ Hin). specialize (Hkeys _ Hin).
+      rewrite forallb_forall in *. intros [k x] Hin. specialize (Hch _ Hin). specialize (Hstr _ Hin).
       cbn [fst snd] in *. apply andb_true_iff in Hch as [_ Hx].
-      destruct k; try discriminate. destruct sub; [discriminate|]. apply IH; exact Hx.
+      destruct k; try discriminate. cbn [str_key]. apply IH; exact Hx.
     + destruct (dt_to_ts orc wall tz None); [|reflexivity]. destruct tz; reflexivity.
     + rewrite marshalable_tag. destruct k; cbn [forallb marshalableb]; rewrite marshalable_ints; reflexivity.
     + apply andb_true_iff in Hwf as [H1 H2]. rewrite marshalable_tag. cbn. rewrite H1, H2. reflexivity.
@@ -391,9 +383,15 @@ Lemma vforall_children : forall P l, forallb (vforall P) l = true -> forall x, I
 Proof. intros P l H. rewrite forallb_forall in H. exact H. Qed.
 
 Lemma encode_f_is_str_keys : forall (f : value -> value) l,
-  forallb (fun kv : value * value => is_str (fst kv)) (map (fun kv => (fst kv, f (snd kv))) l) =
-  forallb (fun kv : value * value => is_str (fst kv)) l.
-Proof. intros f l. rewrite forallb_map. reflexivity. Qed.
+  forallb (fun kv : value * value => is_str (fst kv)) l = true ->
+  forallb (fun kv : value * value => is_str (fst kv)) (map (fun kv => (str_key (fst kv), f (snd kv))) l) = true.
+Proof.
+  intros f l H. rewrite forallb_map. eapply forallb_impl; [|exact H].
+  intros [k x] _ Hk. cbn [fst] in *. destruct k; try discriminate. reflexivity.
+Qed.
+
+Lemma str_key_idem : forall k, str_key (str_key k) = str_key k.
+Proof. destruct k; reflexivity. Qed.
 
 Theorem encode_decode_encode : forall n v, vforall node_dt v = true ->
   encode_f orc n (decode_f orc n (encode_f orc n v)) = encode_f orc n v.
@@ -445,21 +443,21 @@ Proof.
     + (* dict *)
       destruct (forallb (fun kv => is_str (fst kv)) l) eqn:Hstr; [|apply rt_U].
       destruct l as [|kv l]; [reflexivity|]. remember (kv :: l) as xs eqn:Exs.
-      assert (Hne1 : map (fun kv : value * value => (fst kv, encode_f orc n (snd kv))) xs <> []) by (subst xs; discriminate).
+      assert (Hne1 : map (fun kv : value * value => (str_key (fst kv), encode_f orc n (snd kv))) xs <> []) by (subst xs; discriminate).
       rewrite (decode_O_ne n _ Hne1), map_map. cbn [fst snd].
-      (* keys are str: decoding leaves them alone *)
-      assert (Hkeys : map (fun x : value * value => (decode_f orc n (fst x), decode_f orc n (encode_f orc n (snd x)))) xs =
-                      map (fun x : value * value => (fst x, decode_f orc n (encode_f orc n (snd x)))) xs).
+      (* keys are exact str now: decoding leaves them alone *)
+      assert (Hkeys : map (fun x : value * value => (decode_f orc n (str_key (fst x)), decode_f orc n (encode_f orc n (snd x)))) xs =
+                      map (fun x : value * value => (str_key (fst x), decode_f orc n (encode_f orc n (snd x)))) xs).
       { apply map_ext_in. intros [k x] Hin. cbn [fst snd]. rewrite forallb_forall in Hstr. specialize (Hstr _ Hin). cbn in Hstr.
-        destruct k; try discriminate. rewrite decode_prim; [reflexivity|discriminate|discriminate]. }
+        destruct k; try discriminate. cbn [str_key]. rewrite decode_prim; [reflexivity|discriminate|discriminate]. }
       rewrite Hkeys.
-      remember (map (fun x : value * value => (fst x, decode_f orc n (encode_f orc n (snd x)))) xs) as ds eqn:Eds.
+      remember (map (fun x : value * value => (str_key (fst x), decode_f orc n (encode_f orc n (snd x)))) xs) as ds eqn:Eds.
       assert (Hstr' : forallb (fun kv : value * value => is_str (fst kv)) ds = true).
-      { subst ds. rewrite (encode_f_is_str_keys (fun y => decode_f orc n (encode_f orc n y))). exact Hstr. }
+      { subst ds. apply (encode_f_is_str_keys (fun y => decode_f orc n (encode_f orc n y))). exact Hstr. }
       assert (Hne : ds <> []) by (subst ds xs; discriminate).
       destruct ds as [|y ys]; [contradiction|].
       cbn [encode_f]. rewrite Hstr'. rewrite Eds, map_map. cbn [fst snd]. apply (f_equal (fun d => tag "O" [PDict d])).
-      apply map_ext_in. intros [k x] Hin. cbn [fst snd]. f_equal. apply IH.
+      apply map_ext_in. intros [k x] Hin. cbn [fst snd]. rewrite str_key_idem. f_equal. apply IH.
       rewrite forallb_forall in Hch. specialize (Hch _ Hin). cbn in Hch. apply andb_true_iff in Hch as [_ Hx]. exact Hx.
     + apply andb_true_iff in Hnode as [H1 H2]. apply Z.leb_le in H1. apply Z.leb_le in H2.
       unfold date_to_ts. apply rt_date. lia.
